@@ -193,26 +193,67 @@ func c09X4(r *Run, rep *core.Report) {
 		rep.Fn(fn(ctor))
 		found := false
 		roles := fieldRoles(r)
-		core.Instrs(ctor, func(in ssa.Instruction) {
-			c, ok := in.(ssa.CallInstruction)
-			if !ok {
-				return
-			}
-			if id := core.CalleeID(c); !strings.HasPrefix(id, "(*sync/atomic.") || !strings.HasSuffix(id, ".Store") || len(c.Common().Args) != 2 {
-				return
-			}
-			dst := core.Addr(c.Common().Args[0])
-			val := c.Common().Args[1]
-			if mi, isMI := val.(*ssa.MakeInterface); isMI {
-				val = mi.X
-			}
-			val = core.StripConv(val)
-			// atomic.Pointer[T].Store(&x): the setting is the value the constructor put into x
-			if al, isA := val.(*ssa.Alloc); isA {
-				if st := uniqueStore(al); st != nil {
-					val = core.StripConv(st.Val)
+		// atomic stores of settings: in the constructor itself, or in a setter it calls (the value is then the argument)
+		type sstore struct {
+			in       ssa.Instruction
+			dstField string
+			val      ssa.Value
+		}
+		var stores []sstore
+		var collect func(f *ssa.Function, resolve func(ssa.Value) ssa.Value, at ssa.Instruction, depth int)
+		collect = func(f *ssa.Function, resolve func(ssa.Value) ssa.Value, at ssa.Instruction, depth int) {
+			core.Instrs(f, func(in ssa.Instruction) {
+				c, ok := in.(ssa.CallInstruction)
+				if !ok {
+					return
 				}
-			}
+				id := core.CalleeID(c)
+				if strings.HasPrefix(id, "(*sync/atomic.") && strings.HasSuffix(id, ".Store") && len(c.Common().Args) == 2 {
+					site := in
+					if at != nil {
+						site = at
+					}
+					val := c.Common().Args[1]
+					if mi, isMI := val.(*ssa.MakeInterface); isMI {
+						val = mi.X
+					}
+					val = core.StripConv(val)
+					if al, isA := val.(*ssa.Alloc); isA {
+						if st := uniqueStore(al); st != nil {
+							val = core.StripConv(st.Val)
+						}
+					}
+					stores = append(stores, sstore{site, core.Addr(c.Common().Args[0]).Field, resolve(val)})
+					return
+				}
+				if cal := core.Callee(c); cal != nil && cal.Pkg == r.P.Cache && cal.Blocks != nil && depth < 2 && cal != f {
+					args := c.Common().Args
+					collect(cal, func(v ssa.Value) ssa.Value {
+						v = core.StripConv(v)
+						if prm, isP := v.(*ssa.Parameter); isP {
+							if pi := paramIndexOf(cal, prm); pi >= 0 && pi < len(args) {
+								a := args[pi]
+								if mi, isMI := a.(*ssa.MakeInterface); isMI {
+									a = mi.X
+								}
+								return resolve(core.StripConv(a))
+							}
+						}
+						return v
+					}, func() ssa.Instruction {
+						if at != nil {
+							return at
+						}
+						return in
+					}(), depth+1)
+				}
+			})
+		}
+		collect(ctor, func(v ssa.Value) ssa.Value { return v }, nil, 0)
+		for _, ss := range stores {
+			in := ss.in
+			dst := core.AddrPath{Field: ss.dstField}
+			val := ss.val
 			ld, isLd := val.(*ssa.UnOp)
 			src := ""
 			var cfgRoot ssa.Value
@@ -229,7 +270,7 @@ func c09X4(r *Run, rep *core.Report) {
 			case "evictedCallback":
 				want = "EvictedCallback"
 			default:
-				return
+				continue
 			}
 			// the config must be the normalised one: the cell is assigned from a call (configDefault) of the constructor's arguments
 			normalised := false
@@ -242,7 +283,7 @@ func c09X4(r *Run, rep *core.Report) {
 			}
 			rep.Check(src == want && normalised, "C09.X4", fn(ctor)+" initialises setting "+dst.Field, r.P.InstrPos(in), "setting initialised from the normalised config's "+want,
 				"the setting "+dst.Field+" is initialised from "+src+" (normalised config: "+fmt.Sprint(normalised)+"), expected the normalised config's "+want)
-		})
+		}
 		rep.Check(found, "C09.X4", fn(ctor)+" stores the default expiration", r.P.Pos(ctor.Pos()), "constructor stores the default expiration setting", "the constructor does not initialise the default expiration setting (Load would panic / default lost)")
 	}
 	// duration arguments keep their role across in-package calls (NewDefault -> constructor helper)
